@@ -1,7 +1,11 @@
 #!/bin/bash
 # Builds the harness against $VERIF_REPO's current working tree (default /repo):
-#   build/vcheck  - every check; pkg/ggql compiled through the overlay (sync -> scheduler shim)
-#   build/vrace   - free-running race pass (no overlay, real sync, -race)        [only with RACE=1]
+#   build/vcheck      - every check; pkg/ggql compiled through the overlay (sync -> scheduler shim)
+#   build/vcheck_mem  - the same harness over the memory-access overlay (mc/cmd/mkinstr: every field / package
+#                       variable access of pkg/ggql reported to the scheduler); used by C12 and C20. If the
+#                       instrumentation or its build fails the file is removed and those checks fall back to
+#                       build/vcheck (and say so in their evidence) - instrumentation is never a reason to fail.
+#   build/vrace       - free-running race pass (no overlay, real sync, -race)        [only with RACE=1]
 source "$(dirname "$0")/env.sh"
 cd "$VERIF_DIR/mc" || exit 2
 MODFILE="$VERIF_DIR/build/go.mod"
@@ -10,6 +14,14 @@ sed "s#=> /repo#=> $VERIF_REPO#" go.mod > "$MODFILE"
 [ -f go.sum ] && cp go.sum "$VERIF_DIR/build/go.sum"
 python3 "$VERIF_DIR/bin/mkoverlay.py" || exit 2
 go build -modfile="$MODFILE" -overlay "$VERIF_DIR/build/overlay.json" -tags vsched -o "$VERIF_DIR/build/vcheck" ./cmd/vcheck || exit 2
+rm -f "$VERIF_DIR/build/vcheck_mem"
+if go build -modfile="$MODFILE" -o "$VERIF_DIR/build/mkinstr" ./cmd/mkinstr &&
+   "$VERIF_DIR/build/mkinstr" "$VERIF_REPO" "$VERIF_DIR/build/ovm" "$VERIF_DIR/build/overlay_mem.json" "$VERIF_DIR/build/sites.json" "$VERIF_DIR/mc/vsyncsrc/vsync.go.txt"; then
+  go build -modfile="$MODFILE" -overlay "$VERIF_DIR/build/overlay_mem.json" -tags vsched -o "$VERIF_DIR/build/vcheck_mem" ./cmd/vcheck 2>"$VERIF_DIR/build/vcheck_mem.err" ||
+    { echo "build.sh: memory-access overlay did not compile (see build/vcheck_mem.err); C12/C20 use the plain overlay" >&2; rm -f "$VERIF_DIR/build/vcheck_mem"; }
+else
+  echo "build.sh: mkinstr failed; C12/C20 use the plain overlay" >&2
+fi
 if [ "${RACE:-1}" = "1" ]; then
   go build -modfile="$MODFILE" -race -o "$VERIF_DIR/build/vrace" ./cmd/vrace || exit 2
 fi
